@@ -53,7 +53,8 @@ def tar(files, ext):
 
 
 DATA_FILES = [("usr/bin/tool", b"\x7fELF\x00\x01binary\xff"), ("etc/my file.conf", b"a=1\n"), (".placeholder", b""),
-              (".cache dir/.keep", b"k"), ("etc/skel/.profile", b"# p\n"), ("usr/share/doc/x/copyright", "©\n".encode())]
+              (".cache dir/.keep", b"k"), ("etc/skel/.profile", b"# p\n"), ("usr/share/doc/x/copyright", "©\n".encode()),
+              ("*star file.bin", b"s"), ("usr/ *odd  name ", b"o"), ("opt/é ü/%s,;", b"u"), ("-dash", b"d")]
 SCRIPTS = ["preinst", "postinst", "prerm", "postrm", "config"]
 
 
